@@ -128,6 +128,20 @@ def chk_parse_bytes(b, origin):
         return "violation", [V(P + ":Script.parse:accepted:wrong-commands", "parse(%s) cmds/consumed differ from reference" % b[:24].hex(),
                                [c.hex() if isinstance(c, bytes) else c for c in sc.cmds][:4],
                                [c.hex() if isinstance(c, bytes) else c for c in rcmds][:4])]
+    # a script obtained by PARSING is a script like any other: serialising it must give the standard minimal pushes, whatever
+    # framing the parsed bytes used (PUSHDATA1/2 for a short element is legal input, not legal output)
+    if all(not isinstance(c, bytes) or 1 <= len(c) <= 520 for c in rcmds):
+        exp = hd.script_raw(rcmds)
+        st2, raw = attempt(sc.raw_serialize)
+        if st2 != "ok" or raw != exp:
+            minimal = exp == b[hd.read_varint(b)[1]:rpos]
+            return "violation", [V("%s:parse-then-serialize:%s:wrong-bytes" % (P, "minimal-input" if minimal else "non-minimal-input"),
+                                   "raw_serialize() of the script parsed from %s" % b[:24].hex(), raw[:16].hex() if st2 == "ok" else raw, exp[:16].hex())]
+        st2, ser = attempt(sc.serialize)
+        if st2 != "ok" or ser != hd.varint(len(exp)) + exp:
+            return "violation", [V(P + ":parse-then-serialize:serialize:wrong-bytes", "serialize() of the script parsed from %s" % b[:24].hex(),
+                                   ser[:16].hex() if st2 == "ok" else ser, (hd.varint(len(exp)) + exp)[:16].hex())]
+        return "accepted-agree+reserialised", []
     return "accepted-agree", []
 
 
@@ -300,6 +314,15 @@ def run(ctx):
     if ctx.thorough:
         cases += [{"k": "parse_block", "prefix": [a, b], "len": 6} for a in PARSE_ALPHA for b in PARSE_ALPHA]
     ctx.product("arbitrary-parser-input", cases, execute, chunk=4)
+    # non-minimal framings of every boundary length (accepted or refused - but never re-emitted)
+    cases = []
+    for n in (1, 2, 74, 75, 76, 255):
+        body = bytes((i * 7 + salt) % 256 for i in range(n))
+        for framed in (b"\x4c" + bytes([n]) + body, b"\x4d" + n.to_bytes(2, "little") + body):
+            for tail in (b"", b"\xac", b"\x01\x07"):
+                raw = framed + tail
+                cases.append({"k": "parse", "hex": (hd.varint(len(raw)) + raw).hex(), "origin": "arbitrary"})
+    ctx.product("non-minimal-framings", cases, execute)
     cases = [{"k": "varint_block", "lo": lo, "hi": min(lo + 1000, 70001)} for lo in range(0, 70001, 1000)]
     edge = set()
     for kk in range(0, 71):
